@@ -266,7 +266,8 @@ EXTRA = {
     'C11': 'Every filter operation also in its replacing form (clear_existing=True = clear-then-filter); histories applying one '
            'type set to different sub-indexes of pattern logs that share first entry, last entry and size. '
            'Stepped index slices index[i:j:k] (Op.filterStride in model, specification and simulation proof); C11_forward_only: between rewinds / seeks the position never moves back, so no message is returned twice.',
-    'C12': 'Histories "across-types read of T / reads of strict subsets of T with other arguments / the first read again".',
+    'C12': 'Histories "across-types read of T / reads of strict subsets of T with other arguments / the first read again". '
+           'Every earlier read() result is kept and re-read after every later call: it must still be what it was when returned.',
     'C15': 'Boundary sizes: union / common / per-type epoch counts at 2^k-1 .. 2^k+2 (k = 7, 8; thorough also 15, 16). '
            'An inserted entry owns its p1_time object (no sharing with any other entry of the result).',
     'C03': 'Fresh-interpreter sweeps in which an application first defines and uses its own enum / mask classes under the names of '
